@@ -26,6 +26,10 @@ func (interp *Interpreter) buildOk(ctx *build.Context, name, src string) (bool, 
 	// supersedes the // +build lines.
 	var goBuild, plusBuild []string
 	for _, g := range f.Comments {
+		if g.Pos() > f.Package {
+			// The parser reads ahead: comments after the package clause are not constraints.
+			break
+		}
 		for _, c := range g.List {
 			switch {
 			case constraint.IsGoBuild(c.Text):
